@@ -107,7 +107,7 @@ func init() {
 				Thorough: []Params{{"M": 5, "P": 2}, {"M": 8, "P": 3}}},
 			{Name: "C11_nolimit", Expect: []string{"end", "core-equal"},
 				Quick:    simCases(quickMP),
-				Thorough: simCases(pairs(append(seq(3, 16), 24, 32), []int{1, 2, 3}))},
+				Thorough: simCases(pairs(append(seq(3, 16), 24), []int{1, 2, 3}))},
 		},
 		Outside: []string{"core sizes other than the listed cases", "operand fetches that the simulator does not report (only the queued targets, changed cells and reported reads are observable)"},
 	})
